@@ -19,6 +19,10 @@ const geoModule = "github.com/golang/geo"
 
 var structSorts = map[string]*Sort{}
 
+// floatMode: 0 = float64 values are opaque 64-bit patterns and every float operation is uninterpreted
+// (default: structural proofs); 1 = IEEE sort, comparisons exact, arithmetic uninterpreted; 2 = exact IEEE.
+var floatMode = 0
+
 func typeKey(t types.Type) string {
 	return sanitize(types.TypeString(t, func(p *types.Package) string { return p.Name() }))
 }
@@ -56,6 +60,9 @@ func sortOf(t types.Type) *Sort {
 		case types.Int, types.Uint, types.Int64, types.Uint64, types.Uintptr, types.UntypedInt:
 			return SBV(64)
 		case types.Float64, types.UntypedFloat:
+			if floatMode == 0 {
+				return SBV(64) // opaque bit pattern
+			}
 			return SFP
 		case types.Float32:
 			return SFP32
@@ -76,6 +83,9 @@ func sortOf(t types.Type) *Sort {
 			return SBV(64)
 		}
 		k := typeKey(t)
+		if floatMode != 0 {
+			k += "_fp"
+		}
 		if s, ok := structSorts[k]; ok {
 			return s
 		}
